@@ -125,19 +125,24 @@ def run(ctx):
     samples = []
     B = builders()
     per = 25 if ctx.quick else 300
-    for proto, name, build in B:
-        for _ in range(per):
+    # opcodes interleaved (what one PDU leaves behind must not show in the next); every other sample is handled by a
+    # caller that edits, after use, the objects it built and the objects it got back
+    for rnd in range(per):
+        for proto, name, build in B:
+            owned = []
             s = {"proto": proto, "op": name, "err": "", "frame": [], "reliable": False, "len": 0, "frame2": [], "fields_equal": False,
                  "hrnp": [], "hrnp2": [], "hrnp_ok": False, "hstrp": [], "hstrp2": [], "sn": 0, "opts": []}
             stage = "build"
             try:
                 o = build(rng)
+                owned.append(o)
                 s["reliable"] = bool(o.is_reliable)
                 stage = "serialise"
                 fr = o.as_bytes()
                 s["frame"], s["len"] = list(fr), len(o)
                 stage = "parse"
                 p = HDAP.from_bytes(fr)
+                owned.append(p)
                 s["frame2"] = list(p.as_bytes())
                 s["fields_equal"] = struct(p) == struct(o)
                 stage = "hrnp"
@@ -146,6 +151,7 @@ def run(ctx):
                 hb = h.as_bytes()
                 s["hrnp"] = list(hb)
                 hp = HRNP.from_bytes(hb)
+                owned += [h, hp]
                 s["hrnp2"], s["hrnp_ok"] = list(hp.as_bytes()), bool(hp.checksum_correct)
                 stage = "hstrp"
                 k = rng.randrange(0, 4)
@@ -160,9 +166,15 @@ def run(ctx):
                 hs = HSTRP(pkt_type=HSTRPPacketType(have_options=k > 0), sn=s["sn"], options=opts, payload=o)
                 sb = hs.as_bytes()
                 s["hstrp"] = list(sb)
-                s["hstrp2"] = list(HSTRP.from_bytes(sb).as_bytes())
+                hs2 = HSTRP.from_bytes(sb)
+                owned += [hs, hs2]
+                s["hstrp2"] = list(hs2.as_bytes())
             except Exception as ex:  # noqa
                 s["err"] = f"{stage}:{type(ex).__name__}"
+            if rnd % 2:
+                seen = set()
+                for x in owned:
+                    gen.scribble(x, seen=seen)
             samples.append(s)
             ctx.count(core.digest([proto, name, s["frame"], s["opts"]]))
     path = os.path.join(ctx.rundir, "c12_data.json")
